@@ -18,13 +18,14 @@ PX == <<47, 120>>           \* "/x"
 PZ == <<47, 122, 122>>      \* "/zz"
 
 \* kinds of file a -p argument can name
-FileKinds == { "addx", "replx", "testx", "rmzz", "empty", "addpct", "notpatch", "malformed", "missing", "dir" }
-IsPatchFile(k) == k \in { "addx", "replx", "testx", "rmzz", "empty", "addpct" }
+FileKinds == { "addx", "replx", "testx", "rmzz", "empty", "addpct", "push", "notpatch", "malformed", "missing", "dir" }
+IsPatchFile(k) == k \in { "addx", "replx", "testx", "rmzz", "empty", "addpct", "push" }
 OpsOf(k) ==
   CASE k = "addx"  -> << [op |-> "add", path |-> PX, value |-> N1] >>
     [] k = "replx" -> << [op |-> "replace", path |-> PX, value |-> N2] >>          \* does not commute with addx
     [] k = "testx" -> << [op |-> "test", path |-> PX, value |-> N1] >>             \* passes only after addx
     [] k = "addpct" -> << [op |-> "add", path |-> <<47, 112>>, value |-> Str(<<49, 48, 48, 37, 32, 115, 37, 100>>)] >>   \* "100% s%d": output is data, not a format
+    [] k = "push"  -> << [op |-> "add", path |-> <<47, 45>>, value |-> N2] >>      \* appends to an array root: NOT idempotent (the same file twice)
     [] k = "rmzz"  -> << [op |-> "add", path |-> <<47, 107>>, value |-> N1], [op |-> "remove", path |-> PZ] >>  \* fails in its 2nd operation
     [] OTHER       -> << >>
 
